@@ -894,7 +894,11 @@ func genConfig(r *vfh.Rand, valid int) gConfig {
 		c.debugAddr = "[::1]:9430"
 	case 3:
 		if bad(1, 1) {
-			c.debugAddr = vfh.Pick(r, []string{"x:y:z", ":99999", "nocolon", "127.0.0.1"})
+			// what net.ResolveTCPAddr rejects, whatever the class of its error: malformed, port out of
+			// range, missing port, an unknown service name or a non-numeric port (reported as a
+			// *net.DNSError "unknown port"), an IP literal that is none
+			c.debugAddr = vfh.Pick(r, []string{"x:y:z", ":99999", "nocolon", "127.0.0.1", "localhost:notaport", "[::1]:94e30",
+				":no-such-service", "127.0.0.1:", "[::1", "localhost:-1", "256.1.1.1.1:80x"})
 		}
 	}
 	c.prom, c.pprof = r.Chance(1, 3), r.Chance(1, 4)
@@ -1140,6 +1144,8 @@ func boundaryConfigs() []gConfig {
 		gConfig{ifaces: []gIface{{name: "eth0", monitor: true, maxInterval: "1s", mtu: -5, prefixes: []gPrefix{{prefix: "bogus"}}}}},
 		gConfig{ifaces: []gIface{{name: "eth0"}}},
 		gConfig{ifaces: []gIface{{name: "eth0", advertise: true}}, debugAddr: "x:y:z"},
+		gConfig{ifaces: []gIface{{name: "eth0", advertise: true}}, debugAddr: "localhost:notaport"},
+		gConfig{ifaces: []gIface{{name: "eth0", advertise: true}}, debugAddr: "[::1]:94e30"},
 		gConfig{ifaces: []gIface{{name: "eth0", advertise: true}}, debugAddr: ":9430", prom: true, pprof: true},
 		gConfig{ifaces: []gIface{{name: "eth0", advertise: true}}, prom: true},
 	)
